@@ -120,6 +120,15 @@ func c14RenderWith(r *fw.Rec, ws *writerSpec, w gozxing.Writer, content string, 
 			hints[gozxing.EncodeHintType_MARGIN] = fmt.Sprint(margin) // string form
 		}
 	}
+	if hints == nil && r.Rng.Intn(3) == 0 {
+		// a hint map that says nothing about the margin (empty, or with a key this writer has no
+		// use for): the defaults apply, and the map comes back as it went in
+		hints = map[gozxing.EncodeHintType]interface{}{}
+		if r.Rng.Bool() && ws.Name != "QR_CODE" {
+			hints[gozxing.EncodeHintType_CHARACTER_SET] = "UTF-8"
+		}
+		r.Tally("renderings_with_a_hint_map_without_margin")
+	}
 	if ws.Name == "QR_CODE" && r.Rng.Intn(4) == 0 {
 		// a forced mask (and sometimes a forced version): the module matrix is then the encoder's
 		// for the same hints, and the rendering must show THAT matrix
@@ -472,6 +481,7 @@ func c14(c *fw.Ctx) {
 	c.Floor("renders_via_EncodeWithoutHint", 500)
 	c.Floor("qr_renderings_with_level_hint_next_to_margin", 1000)
 	c.Floor("renderings_by_zero_value_writers", 500)
+	c.Floor("renderings_with_a_hint_map_without_margin", 5000)
 	c.Floor("qr_renderings_with_forced_mask_or_version", 1000)
 	c.Floor("renderings_of_rectangular_2d_symbols", 50)
 	c.Floor("renderings_with_modules_of_33_pixels_or_more", 150)
